@@ -304,7 +304,7 @@ func runCheck(repo, verifDir, prop, tier string) int {
 	qdir := filepath.Join("/var/tmp", fmt.Sprintf("govc-%s-%d", prop, os.Getpid()))
 	os.MkdirAll(qdir, 0o755)
 	defer os.RemoveAll(qdir)
-	timeouts := []int{10, 15, 15}
+	timeouts := []int{15, 15, 15}
 	if tier == "thorough" {
 		timeouts = []int{60, 60, 60}
 	}
